@@ -3,6 +3,7 @@ package main
 // Environment models: time, go-metrics registry, net (TCP endpoints).
 
 import (
+	"strings"
 	"fmt"
 	"go/types"
 
@@ -76,6 +77,15 @@ func init() {
 	reg("time.Since", func(fr *frame, args []value) value { return ConstBV(64, 0) })
 	reg("time.Until", func(fr *frame, args []value) value { return ConstBV(64, 0) })
 	reg("time.Sleep", func(fr *frame, args []value) value {
+		// remember on whose behalf the sleep happens (the functions on the sleeping goroutine's stack): harnesses ask
+		// with verifSleepsUnder("<function name part>") whether a loop that must never wait slept
+		var st []string
+		for f := fr; f != nil; f = f.caller {
+			if f.fn != nil {
+				st = append(st, f.fn.String())
+			}
+		}
+		E.sleepStacks = append(E.sleepStacks, strings.Join(st, " < "))
 		d := args[0].(*Term)
 		if d.IsConst() {
 			n := d.Int64()
@@ -88,6 +98,16 @@ func init() {
 		}
 		return nil
 	})
+	verifFuncs["verifSleepsUnder"] = func(fr *frame, a []value) value {
+		sub := mustConcStr(a[0])
+		n := 0
+		for _, st := range E.sleepStacks {
+			if strings.Contains(st, sub) {
+				n++
+			}
+		}
+		return mkI(n)
+	}
 	reg("time.NewTicker", func(fr *frame, args []value) value {
 		d := args[0].(*Term)
 		if E.branch(Sle(d, ConstBV(64, 0))) {
